@@ -285,14 +285,19 @@ def returned_extent_functions(cm, discharged_nodes):
                 if int_value(v) == 0:
                     continue
                 rd = ref_decl(v)
+                assigns = [x for x in walk(body) if rd and x.get('kind') == 'BinaryOperator' and x.get('opcode') == '=' and (ref_decl(x['inner'][0]) or {}).get('id') == rd.get('id')]
+                if not assigns:
+                    # the returned expression itself (hoisted locals substituted) is the extent of a discharged access at `first`
+                    val = cm.inl.c(v)
+                    acc = [n for n in discharged_nodes if any(a is body for a in ancestors(n)) and discharged_nodes_E[id(n)] == val and discharged_nodes_A[id(n)] == first]
+                    if not acc:
+                        ok = False
+                        break
+                    continue
                 if not rd or rd.get('kind') != 'VarDecl':
                     ok = False
                     break
                 # every assignment to the variable is `ret = E` next to a discharged access with extent E starting at `first`
-                assigns = [x for x in walk(body) if x.get('kind') == 'BinaryOperator' and x.get('opcode') == '=' and (ref_decl(x['inner'][0]) or {}).get('id') == rd.get('id')]
-                if not assigns:
-                    ok = False
-                    break
                 for a in assigns:
                     blk = enclosing(a, ('CompoundStmt',))
                     val = cm.inl.c(a['inner'][1])
@@ -402,20 +407,21 @@ def check_pput(ctx, u, R):
         ok_dst = dstc in ('(%s + this.data.data())' % off, '(this.data.data() + %s)' % off)
         ctx.check(ok_dst and nb is not None and nb == szT, R, lab + '|copy-shape', cp, 'memcpy(data.data() + %s, &v, %s)' % (off, nb),
                   'copy is memcpy(%s, ..., %s); expected destination data.data() + %s and sizeof(T) = %s bytes' % (dstc, canon(nbytes), off, szT))
-        # definitions of locals
-        defs = {}
-        for x in walk(body):
-            if x.get('kind') == 'VarDecl' and kids(x):
-                defs[x.get('name')] = (x, inl.c(kids(x)[-1]))
-        ends = [nm for nm, (vd, e) in defs.items() if e in ('(%s + %s)' % (off, szT), '(%s + %s)' % (szT, off))]
+        # the end offset offset + sizeof(T), however it is spelled (hoisted locals are substituted away)
+        ends = ('(%s + %s)' % (off, szT), '(%s + %s)' % (szT, off))
         rels = rels_at(cp, inl)
-        if not ends:
-            ctx.bad(R, lab + '|end-offset', cp, 'no local holds offset + sizeof(T); cannot establish the wrap check')
-            continue
-        end = ends[0]
+        end = next((e for e in ends if any(e in (a_, b_) for a_, _, b_ in rels)), ends[0])
+        smax = (1 << 64) - 1
         wrap_ok = holds(rels, end, ('>=',), off) or holds(rels, end, ('>',), off)
-        ctx.check(wrap_ok, R, lab + '|wrap-check', cp, '`%s < %s` leads to a throw before the copy' % (end, off),
-                  'the sum %s = %s + sizeof(T) is not tested for wrap-around before it is used as the new size: pput(SIZE_MAX-1, v) resizes to a tiny size and copies far outside the buffer' % (end, off))
+        # or the pre-check form: offset <= SIZE_MAX - sizeof(T)
+        for a_, op_, b_ in rels:
+            for x_, o_, y_ in ((a_, op_, b_), (b_, FLIP[op_], a_)):
+                if x_ == off and y_.lstrip('-').isdigit():
+                    c_ = int(y_)
+                    if (o_ == '<=' and c_ <= smax - szT) or (o_ == '<' and c_ <= smax - szT + 1):
+                        wrap_ok = True
+        ctx.check(wrap_ok, R, lab + '|wrap-check', cp, 'offset + sizeof(T) cannot wrap at the copy (`end < offset` or `offset > SIZE_MAX - sizeof(T)` leads to a throw)',
+                  'the sum %s + sizeof(T) is not tested for wrap-around before it is used as the new size: pput(SIZE_MAX-1, v) resizes to a tiny size and copies far outside the buffer' % off)
         # grow: a preceding `if (end > size) resize(end)` (either orientation)
         grow_ok = False
         detail = ''
